@@ -277,6 +277,10 @@ func (k Keeper) TallyValidityProofs(ctx sdk.Context, duration time.Duration, rep
 
 				// distribute publish collateral to challengers as a reward.
 				publishCollateral := data.PublishDataCollateral
+				if len(invalidities) == 0 {
+					// no recorded challenger (an item re-imported from a genesis export): nobody to reward, nothing to divide
+					publishCollateral = sdk.Coins{}
+				}
 				reward := sdk.Coins{}
 				for _, coin := range publishCollateral {
 					dividedAmount := math.LegacyNewDecFromInt(coin.Amount).QuoInt64(int64(len(invalidities))).TruncateInt()
